@@ -66,6 +66,12 @@ def run(ctx):
                     cases.append((prog, ''.join(others[i % len(others)] for i in range(k)) + '}' + v + '}' + v + '}' + v))
                     # the same with every store of the others flushed at once (so that what they completed is visible to v)
                     cases.append((prog, ''.join(others[i % len(others)] + chr(ord('a') + int(others[i % len(others)])) for i in range(k)) + '}' + v + '}' + v + '}' + v))
+        if name == 'scen_lfhtx':
+            # targeted family: a remover (del / replace) frozen at every point of its operation - in particular between the logical removal and the unlink -
+            # with its victim directly behind a bucket node or behind an ordinary node; an updater of the same chain then runs alone and must help, not wait
+            for prog in ('A0L0X/A3A5', 'A0L0X/U3', 'A0L0X/R5', 'A4L4X/A6', 'A0A5L5X/A3', 'A0L0P2/A3', 'A0L0X/L0'):
+                for k in range(0, 90 if ctx.quick() else 140):
+                    cases.append((prog, '0a' * k + '}1}1'))
         while len(cases) < n + len(progs) * 40:
             prog = ctx.rng.choice(progs); th = [str(i) for i in range(prog.count('/') + 1)]; v = ctx.rng.choice(th)
             cases.append((prog, bursty(ctx.rng, th, lo=5, hi=120, means=(1, 2, 5, 12)) + '}' + v + '}' + v))
